@@ -347,10 +347,12 @@ func genStore(r *rand.Rand, thorough bool) []string {
 		}
 		if len(ws) > 0 && r.Intn(8) == 0 {
 			x := ws[r.Intn(len(ws))].hash // shares the five directory characters
-			h = x[:5] + rhash(r)[5:]
+			if len(x) >= 5 {
+				h = x[:5] + rhash(r)[5:]
+			}
 		}
 		if r.Intn(25) == 0 {
-			h = h[:1+r.Intn(6)] // too short for the five sub-directories when < 5
+			h = h[:1+r.Intn(minInt(6, len(h)))] // too short for the five sub-directories when < 5
 		}
 		mb, alias := "-", 0
 		switch r.Intn(5) {
@@ -430,3 +432,10 @@ func storeOracle(ops, outs []string, mk func(sig, msg string) *corr.Violation) *
 }
 
 var _ = filepath.Join
+
+func minInt(a, b int) int {
+	if a < b {
+		return a
+	}
+	return b
+}
